@@ -1,7 +1,1133 @@
-//! C08 harness (stub until built)
+//! C08: compilation is total — every input yields compiled pipelines or a rendered diagnostic.
+//!
+//! request : C08.compile \t <dx|vk|vkba|msl> \t <all|name=X|nopipeline> \t <layout 0|1> \t <defines> \t <input>
+//!   defines : `-` or `NAME=<hex of value>;...` (command-line defines)
+//!   input   : bytes:<seed> | toks:<seed> | rep:<seed> | gram:<seed> | gmut:<seed> | feat:<seed> | prog:<seed> | pmut:<seed>
+//!             | repo:<root>|<entry> | rmut:<root>|<entry>|<seed>          (repository inputs, includes from disk)
+//!             | hex:<bytes> | hexd:<root>|<entry>|<bytes>                  (literal entry file; minimised inputs)
+//! observe : ok:<pipelines>:<output bytes> | err:<first line of the diagnostic> | panic:<site> | died:<signal> | timeout
+//! oracle  : (the property's own) the worker process survives, `compile` returns, an `Err` renders to a non-empty
+//!           message, and the time stays inside `BUDGET_BASE_MS + n^2 * BUDGET_NS_PER_BYTE2` (n = bytes loaded).
+//!
+//! request : C08.lex \t <hex bytes> \t <raw token lengths, `e` suffix = Endline>   (model diff: TokenStream bookkeeping)
+//! request : C08.cond \t <directive letters>                                      (model diff: ConditionChain)
+//!
+//! Process structure: the supervisor (this process) writes request batches to files and spawns worker
+//! processes (`harness c08 --requests FILE worker`); a worker runs its batch on a thread with an 8 MB stack
+//! and prints `B <i>` before and `E <i> ...` after every input, so the supervisor knows which input killed
+//! it (signal, stack overflow, abort) or hung (wall-clock watchdog), restarts after it, and shrinks it.
+use crate::compile_util::*;
 use crate::util::*;
+use std::io::{BufRead, Write};
+use std::time::{Duration, Instant};
 
-pub fn run(_args: &Args, _out: &mut Out) {
-    eprintln!("C08: harness not built yet");
-    std::process::exit(2);
+#[path = "c08_gen.rs"]
+mod generators;
+use generators::*;
+
+pub const WATCHDOG_MS: u64 = 5000;
+/// shorter watchdog while minimising a hang (any <= 4 KB input that needs this long is pathological)
+pub const SHRINK_WATCHDOG_MS: u64 = 1500;
+static CURRENT_WATCHDOG_MS: std::sync::atomic::AtomicU64 = std::sync::atomic::AtomicU64::new(WATCHDOG_MS);
+fn watchdog_ms() -> u64 {
+    CURRENT_WATCHDOG_MS.load(std::sync::atomic::Ordering::SeqCst)
+}
+pub const STACK_BYTES: usize = 8 << 20;
+/// time budget: base + n^2 * c (n = bytes handed out by the include handler); measured constants are in the STAT line
+pub const BUDGET_BASE_MS: f64 = 400.0;
+pub const BUDGET_NS_PER_BYTE2: f64 = 150.0;
+
+// ------------------------------------------------------------------------------------------ requests
+
+#[derive(Clone, Debug)]
+pub struct Req {
+    pub tgt: Tgt,
+    pub mode: Mode,
+    pub layout: bool,
+    pub defs: Vec<(String, String)>,
+    pub input: String,
+}
+
+pub fn parse_mode(s: &str) -> Option<Mode> {
+    if s == "all" {
+        Some(Mode::All)
+    } else if s == "nopipeline" {
+        Some(Mode::NoPipeline)
+    } else {
+        s.strip_prefix("name=").map(|n| Mode::Named(n.to_string()))
+    }
+}
+
+impl Req {
+    pub fn parse(line: &str) -> Option<Req> {
+        let f: Vec<&str> = line.split('\t').collect();
+        if f.len() != 6 || f[0] != "C08.compile" {
+            return None;
+        }
+        let mut defs = Vec::new();
+        if f[4] != "-" {
+            for d in f[4].split(';') {
+                let (n, v) = d.split_once('=')?;
+                defs.push((n.to_string(), String::from_utf8(unhex(v)?).ok()?));
+            }
+        }
+        Some(Req {
+            tgt: Tgt::parse(f[1])?,
+            mode: parse_mode(f[2])?,
+            layout: f[3] == "1",
+            defs,
+            input: f[5].to_string(),
+        })
+    }
+    pub fn line(&self) -> String {
+        let defs = if self.defs.is_empty() {
+            "-".to_string()
+        } else {
+            self.defs.iter().map(|(n, v)| format!("{}={}", n, hex(v.as_bytes()))).collect::<Vec<_>>().join(";")
+        };
+        format!(
+            "C08.compile\t{}\t{}\t{}\t{}\t{}",
+            self.tgt.name(),
+            self.mode.show(),
+            if self.layout { 1 } else { 0 },
+            defs,
+            self.input
+        )
+    }
+}
+
+/// What an input spec denotes: the entry file's bytes and (for repository inputs) the include root
+pub struct Material {
+    pub entry: String,
+    pub bytes: Vec<u8>,
+    pub root: Option<String>,
+}
+
+pub fn materialise(input: &str) -> Option<Material> {
+    let (kind, rest) = input.split_once(':')?;
+    let mem = |bytes: Vec<u8>| Some(Material { entry: "main.rssl".into(), bytes, root: None });
+    match kind {
+        "hex" => mem(unhex(rest)?),
+        "hexd" => {
+            let mut p = rest.splitn(3, '|');
+            let (root, entry, h) = (p.next()?, p.next()?, p.next()?);
+            Some(Material { entry: entry.into(), bytes: unhex(h)?, root: Some(root.into()) })
+        }
+        "repo" => {
+            let (root, entry) = rest.split_once('|')?;
+            let bytes = std::fs::read(std::path::Path::new(root).join(entry)).ok()?;
+            Some(Material { entry: entry.into(), bytes, root: Some(root.into()) })
+        }
+        "rmut" => {
+            let mut p = rest.splitn(3, '|');
+            let (root, entry, seed) = (p.next()?, p.next()?, p.next()?.parse::<u64>().ok()?);
+            let bytes = std::fs::read(std::path::Path::new(root).join(entry)).ok()?;
+            let bytes = mutate_bytes(&bytes, &mut Rng::new(seed));
+            Some(Material { entry: entry.into(), bytes, root: Some(root.into()) })
+        }
+        _ => mem(generate(kind, rest.parse::<u64>().ok()?)?),
+    }
+}
+
+/// the literal (`hex:` / `hexd:`) form of an input spec with other entry bytes
+pub fn literal_spec(m: &Material, bytes: &[u8]) -> String {
+    match &m.root {
+        None => format!("hex:{}", hex(bytes)),
+        Some(root) => format!("hexd:{}|{}|{}", root, m.entry, hex(bytes)),
+    }
+}
+
+/// Include handler: the entry file from memory (arbitrary bytes: non UTF-8 is reported as FileNotText, as a
+/// file-system handler would), everything else from the include root on disk; counts the bytes handed out
+struct Overlay<'a> {
+    m: &'a Material,
+    loaded: usize,
+}
+
+impl rssl::text::IncludeHandler for Overlay<'_> {
+    fn load(&mut self, file_name: &str, parent_name: &str) -> Result<rssl::text::FileData, rssl::text::IncludeError> {
+        if file_name == self.m.entry {
+            return match String::from_utf8(self.m.bytes.clone()) {
+                Ok(contents) => {
+                    self.loaded += contents.len();
+                    Ok(rssl::text::FileData { real_name: file_name.to_string(), contents })
+                }
+                Err(_) => Err(rssl::text::IncludeError::FileNotText),
+            };
+        }
+        let Some(root) = &self.m.root else { return Err(rssl::text::IncludeError::FileNotFound) };
+        let mut disk = DiskFiles { root: std::path::PathBuf::from(root) };
+        let r = disk.load(file_name, parent_name);
+        if let Ok(fd) = &r {
+            self.loaded += fd.contents.len();
+        }
+        r
+    }
+}
+
+pub struct Res {
+    pub obs: String,
+    pub oracle: String,
+    pub micros: u64,
+    pub nbytes: usize,
+}
+
+fn budget_ms(n: usize) -> f64 {
+    BUDGET_BASE_MS + (n as f64) * (n as f64) * BUDGET_NS_PER_BYTE2 / 1.0e6
+}
+
+/// Run one request in this process (worker side)
+fn run_one(req: &Req) -> Res {
+    let Some(m) = materialise(&req.input) else {
+        return Res { obs: "bad-input".into(), oracle: "SKIP:input spec cannot be materialised".into(), micros: 0, nbytes: 0 };
+    };
+    let defs: Vec<(&str, &str)> = req.defs.iter().map(|(a, b)| (a.as_str(), b.as_str())).collect();
+    let mut h = Overlay { m: &m, loaded: 0 };
+    let t0 = Instant::now();
+    let r = guard(|| {
+        let mut args = rssl::CompileArgs::new(&m.entry, &mut h, req.tgt.target())
+            .defines(&defs)
+            .support_buffer_address(req.tgt.buffer_address())
+            .validate_layout_consistency(req.layout);
+        match &req.mode {
+            Mode::All => {}
+            Mode::Named(n) => args = args.pipeline_name(Some(n.as_str())),
+            Mode::NoPipeline => args = args.no_pipeline_mode(),
+        }
+        match rssl::compile(args) {
+            Ok(ps) => Ok((ps.len(), ps.iter().map(|p| p.data.len()).sum::<usize>())),
+            // rendering the diagnostic is part of the property
+            Err(e) => Err(format!("{}", e)),
+        }
+    });
+    let micros = t0.elapsed().as_micros() as u64;
+    let nbytes = h.loaded.max(m.bytes.len());
+    let (obs, mut oracle) = match r {
+        Ok(Ok((n, len))) => (format!("ok:{}:{}", n, len), "ok".to_string()),
+        Ok(Err(msg)) => {
+            let first: String = msg.lines().next().unwrap_or("").chars().take(100).collect();
+            let oracle = if msg.trim().is_empty() { "FAIL:error renders to an empty message".to_string() } else { "ok".to_string() };
+            (format!("err:{}", first), oracle)
+        }
+        Err(p) => (format!("panic:{}", p), format!("FAIL:panic {}", p)),
+    };
+    if oracle == "ok" && (micros as f64) / 1000.0 > budget_ms(nbytes) {
+        oracle = format!("FAIL:slow {} ms for {} bytes (budget {:.0} ms)", micros / 1000, nbytes, budget_ms(nbytes));
+    }
+    Res { obs, oracle, micros, nbytes }
+}
+
+// ------------------------------------------------------------------------------------------ worker
+
+/// Diagnosis of a crash / hang: run the front-end stages one by one through the public API, announcing each, so that
+/// the supervisor learns in which stage the worker dies (`compile` itself is one opaque call)
+fn run_staged(req: &Req) {
+    let say = |s: &str| {
+        let out = std::io::stdout();
+        let mut o = out.lock();
+        writeln!(o, "S\t{}", s).unwrap();
+        o.flush().unwrap();
+    };
+    let Some(m) = materialise(&req.input) else { return };
+    let mut defs: Vec<(&str, &str)> = vec![("__HLSL_VERSION", "2021"), ("RSSL_TARGET_HLSL", "1"), ("RSSL_TARGET_MSL", "0")];
+    if req.tgt == Tgt::Msl {
+        defs[1].1 = "0";
+        defs[2].1 = "1";
+    }
+    defs.extend(req.defs.iter().map(|(a, b)| (a.as_str(), b.as_str())));
+    let _ = guard(|| {
+        let mut h = Overlay { m: &m, loaded: 0 };
+        let mut sm = rssl::text::SourceManager::new();
+        say("preprocess");
+        let Ok(tokens) = rssl::preprocess::preprocess(&m.entry, &mut sm, &mut h, &defs) else { return };
+        let tokens = rssl::preprocess::prepare_tokens(&tokens);
+        say("parse");
+        let Ok(ast) = rssl::parser::parse(&tokens) else { return };
+        say("typecheck");
+        let Ok(ir) = rssl::typer::type_check(&ast) else { return };
+        say("layout-check");
+        let _ = rssl::ir::layout_checker::check_layout(&ir);
+        say("assign-bindings");
+        let params = match req.tgt {
+            Tgt::Dx => rssl::AssignBindingsParams::default(),
+            Tgt::Vk | Tgt::VkBa => rssl::AssignBindingsParams {
+                require_slot_type: false,
+                support_buffer_address: req.tgt.buffer_address(),
+                metal_slot_layout: false,
+                static_samplers_have_slots: true,
+            },
+            Tgt::Msl => rssl::AssignBindingsParams {
+                require_slot_type: false,
+                support_buffer_address: false,
+                metal_slot_layout: true,
+                static_samplers_have_slots: false,
+            },
+        };
+        let ir = ir.assign_api_bindings(&params);
+        say("export");
+        if req.tgt == Tgt::Msl {
+            let _ = rssl::msl::export_to_msl(&ir);
+        } else {
+            let _ = rssl::hlsl::export_to_hlsl(&ir, req.tgt != Tgt::Dx);
+        }
+    });
+    // the whole call as the property observes it (pipeline selection included)
+    say("compile");
+    let _ = run_one(req);
+    say("done");
+}
+
+fn worker(lines: Vec<String>, start: usize, staged: bool) {
+    let t = std::thread::Builder::new()
+        .stack_size(STACK_BYTES)
+        .spawn(move || {
+            let out = std::io::stdout();
+            if staged {
+                if let Some(req) = lines.first().and_then(|l| Req::parse(l)) {
+                    run_staged(&req);
+                }
+                return;
+            }
+            for (i, line) in lines.iter().enumerate().skip(start) {
+                {
+                    let mut o = out.lock();
+                    writeln!(o, "B\t{}", i).unwrap();
+                    o.flush().unwrap();
+                }
+                let res = match Req::parse(line) {
+                    Some(req) => run_one(&req),
+                    None => Res { obs: "bad-request".into(), oracle: "SKIP:bad request".into(), micros: 0, nbytes: 0 },
+                };
+                let mut o = out.lock();
+                writeln!(o, "E\t{}\t{}\t{}\t{}\t{}", i, one_line(&res.obs), one_line(&res.oracle), res.micros, res.nbytes).unwrap();
+                o.flush().unwrap();
+            }
+        })
+        .unwrap();
+    let _ = t.join();
+}
+
+// ------------------------------------------------------------------------------------------ supervisor
+
+fn signal_name(status: &std::process::ExitStatus) -> String {
+    #[cfg(unix)]
+    {
+        use std::os::unix::process::ExitStatusExt;
+        if let Some(s) = status.signal() {
+            return match s {
+                6 => "SIGABRT".into(),
+                11 => "SIGSEGV".into(),
+                7 => "SIGBUS".into(),
+                9 => "SIGKILL".into(),
+                4 => "SIGILL".into(),
+                8 => "SIGFPE".into(),
+                n => format!("signal{}", n),
+            };
+        }
+    }
+    format!("exit{}", status.code().unwrap_or(-1))
+}
+
+static BATCH_NO: std::sync::atomic::AtomicU64 = std::sync::atomic::AtomicU64::new(0);
+
+/// Run request lines in worker processes; one result per line, whatever the workers do
+fn supervise_seq(lines: &[String]) -> Vec<Res> {
+    let mut results: Vec<Option<Res>> = (0..lines.len()).map(|_| None).collect();
+    if lines.is_empty() {
+        return Vec::new();
+    }
+    let no = BATCH_NO.fetch_add(1, std::sync::atomic::Ordering::SeqCst);
+    let tmp = std::env::temp_dir().join(format!("c08-batch-{}-{}.txt", std::process::id(), no));
+    std::fs::write(&tmp, lines.join("\n") + "\n").unwrap();
+    let exe = std::env::current_exe().unwrap();
+    let mut start = 0usize;
+    let mut spawn_failures = 0;
+    while start < lines.len() {
+        let child = std::process::Command::new(&exe)
+            .args(["c08", "--requests", tmp.to_str().unwrap(), "worker", &format!("start={}", start)])
+            .env("RUST_BACKTRACE", "0")
+            .stdout(std::process::Stdio::piped())
+            .stderr(std::process::Stdio::piped())
+            .spawn();
+        let Ok(mut child) = child else {
+            spawn_failures += 1;
+            if spawn_failures > 3 {
+                for r in results.iter_mut().skip(start) {
+                    *r = Some(Res { obs: "no-worker".into(), oracle: "SKIP:could not start a worker process".into(), micros: 0, nbytes: 0 });
+                }
+                break;
+            }
+            continue;
+        };
+        let stdout = child.stdout.take().unwrap();
+        let stderr = child.stderr.take().unwrap();
+        let (tx, rx) = std::sync::mpsc::channel::<String>();
+        let reader = std::thread::spawn(move || {
+            for line in std::io::BufReader::new(stdout).lines() {
+                let Ok(line) = line else { break };
+                if tx.send(line).is_err() {
+                    break;
+                }
+            }
+        });
+        let err_reader = std::thread::spawn(move || {
+            let mut s = String::new();
+            let _ = std::io::Read::read_to_string(&mut std::io::BufReader::new(stderr), &mut s);
+            s
+        });
+        let mut current: Option<usize> = None;
+        let mut timed_out = false;
+        loop {
+            match rx.recv_timeout(Duration::from_millis(watchdog_ms())) {
+                Ok(line) => {
+                    let f: Vec<&str> = line.split('\t').collect();
+                    if f[0] == "B" && f.len() == 2 {
+                        current = f[1].parse().ok();
+                    } else if f[0] == "E" && f.len() == 6 {
+                        if let Ok(i) = f[1].parse::<usize>() {
+                            if i < results.len() {
+                                results[i] = Some(Res {
+                                    obs: f[2].to_string(),
+                                    oracle: f[3].to_string(),
+                                    micros: f[4].parse().unwrap_or(0),
+                                    nbytes: f[5].parse().unwrap_or(0),
+                                });
+                                current = None;
+                                start = i + 1;
+                            }
+                        }
+                    }
+                }
+                Err(std::sync::mpsc::RecvTimeoutError::Timeout) => {
+                    timed_out = true;
+                    let _ = child.kill();
+                    break;
+                }
+                Err(std::sync::mpsc::RecvTimeoutError::Disconnected) => break,
+            }
+        }
+        let status = child.wait();
+        let _ = reader.join();
+        let stderr_text = err_reader.join().unwrap_or_default();
+        if let Some(i) = current {
+            // the worker died or hung inside input i
+            let n = materialise(&Req::parse(&lines[i]).map(|r| r.input).unwrap_or_default()).map(|m| m.bytes.len()).unwrap_or(0);
+            let res = if timed_out {
+                Res { obs: "timeout".into(), oracle: format!("FAIL:timeout no result within {} ms", watchdog_ms()), micros: watchdog_ms() * 1000, nbytes: n }
+            } else {
+                let sig = status.as_ref().map(signal_name).unwrap_or_else(|_| "unknown".into());
+                let hint = if stderr_text.contains("overflowed its stack") {
+                    " stack-overflow"
+                } else if stderr_text.contains("memory allocation") {
+                    " allocation-failure"
+                } else {
+                    ""
+                };
+                Res { obs: format!("died:{}", sig), oracle: format!("FAIL:died {}{}", sig, hint), micros: 0, nbytes: n }
+            };
+            results[i] = Some(res);
+            start = i + 1;
+        } else if !timed_out && start < lines.len() {
+            // the worker ended between inputs without finishing: count as a failed spawn
+            spawn_failures += 1;
+            if spawn_failures > 3 {
+                for r in results.iter_mut().skip(start) {
+                    if r.is_none() {
+                        *r = Some(Res { obs: "no-worker".into(), oracle: "SKIP:worker exited early".into(), micros: 0, nbytes: 0 });
+                    }
+                }
+                break;
+            }
+        }
+    }
+    let _ = std::fs::remove_file(&tmp);
+    results
+        .into_iter()
+        .map(|r| r.unwrap_or(Res { obs: "missing".into(), oracle: "SKIP:no result".into(), micros: 0, nbytes: 0 }))
+        .collect()
+}
+
+/// Stage in which the worker dies or hangs on this request (a fresh worker process in staged mode)
+fn diagnose(line: &str) -> String {
+    diagnose2(line).0
+}
+
+/// (stage that was running when the worker died / hung, stage that took the longest)
+fn diagnose2(line: &str) -> (String, String) {
+    let no = BATCH_NO.fetch_add(1, std::sync::atomic::Ordering::SeqCst);
+    let tmp = std::env::temp_dir().join(format!("c08-diag-{}-{}.txt", std::process::id(), no));
+    std::fs::write(&tmp, format!("{}\n", line)).unwrap();
+    let exe = std::env::current_exe().unwrap();
+    let child = std::process::Command::new(&exe)
+        .args(["c08", "--requests", tmp.to_str().unwrap(), "worker", "staged"])
+        .env("RUST_BACKTRACE", "0")
+        .stdout(std::process::Stdio::piped())
+        .stderr(std::process::Stdio::null())
+        .spawn();
+    let Ok(mut child) = child else { return ("unknown".into(), "unknown".into()) };
+    let stdout = child.stdout.take().unwrap();
+    let (tx, rx) = std::sync::mpsc::channel::<String>();
+    let reader = std::thread::spawn(move || {
+        for line in std::io::BufReader::new(stdout).lines() {
+            let Ok(line) = line else { break };
+            if tx.send(line).is_err() {
+                break;
+            }
+        }
+    });
+    let mut stage = "start".to_string();
+    let mut since = Instant::now();
+    let mut longest = ("start".to_string(), Duration::ZERO);
+    loop {
+        match rx.recv_timeout(Duration::from_millis(SHRINK_WATCHDOG_MS)) {
+            Ok(l) => {
+                if let Some(s) = l.strip_prefix("S\t") {
+                    if since.elapsed() > longest.1 && stage != "compile" {
+                        longest = (stage.clone(), since.elapsed());
+                    }
+                    since = Instant::now();
+                    stage = s.to_string();
+                }
+            }
+            Err(std::sync::mpsc::RecvTimeoutError::Timeout) => {
+                let _ = child.kill();
+                break;
+            }
+            Err(_) => break,
+        }
+    }
+    if since.elapsed() > longest.1 && (stage != "compile" || longest.1 < Duration::from_millis(20)) {
+        longest = (stage.clone(), since.elapsed());
+    }
+    if stage == "done" {
+        // borderline hang: the staged run got through; attribute it to the stage that took the longest
+        stage = longest.0.clone();
+    }
+    let _ = child.wait();
+    let _ = reader.join();
+    let _ = std::fs::remove_file(&tmp);
+    (stage, longest.0)
+}
+
+/// `jobs` supervisor threads, each feeding worker processes with chunks of the request list
+fn supervise(lines: &[String], jobs: usize) -> Vec<Res> {
+    let jobs = jobs.max(1).min(lines.len().max(1));
+    if jobs == 1 {
+        return supervise_seq(lines);
+    }
+    let mut parts: Vec<Vec<(usize, String)>> = (0..jobs).map(|_| Vec::new()).collect();
+    for (i, l) in lines.iter().enumerate() {
+        parts[i % jobs].push((i, l.clone()));
+    }
+    let handles: Vec<_> = parts
+        .into_iter()
+        .map(|part| {
+            std::thread::spawn(move || {
+                let ls: Vec<String> = part.iter().map(|(_, l)| l.clone()).collect();
+                let rs = supervise_seq(&ls);
+                part.into_iter().map(|(i, _)| i).zip(rs).collect::<Vec<_>>()
+            })
+        })
+        .collect();
+    let mut out: Vec<Option<Res>> = (0..lines.len()).map(|_| None).collect();
+    for h in handles {
+        for (i, r) in h.join().unwrap() {
+            out[i] = Some(r);
+        }
+    }
+    out.into_iter().map(|r| r.unwrap()).collect()
+}
+
+// ------------------------------------------------------------------------------------------ keys, classes, shrinking
+
+/// finding keys already listed for C08 in known_findings.jsonl (their minimised reproducers are in corpus/C08.txt):
+/// minimising them again on every run would only cost time
+fn known_keys() -> std::collections::BTreeSet<String> {
+    let root = std::env::var("VERIF_ROOT").unwrap_or_else(|_| ".".into());
+    let text = std::fs::read_to_string(std::path::Path::new(&root).join("known_findings.jsonl")).unwrap_or_default();
+    let mut out = std::collections::BTreeSet::new();
+    for line in text.lines() {
+        let line = line.replace("\": \"", "\":\"");
+        if !line.contains("\"property\":\"C08\"") || !line.contains("\"kind\":\"known\"") {
+            continue;
+        }
+        if let Some(p) = line.find("\"key\":\"") {
+            let mut key = String::new();
+            let mut cs = line[p + 7..].chars();
+            while let Some(c) = cs.next() {
+                match c {
+                    '\\' => {
+                        if let Some(n) = cs.next() {
+                            key.push(n);
+                        }
+                    }
+                    '"' => break,
+                    c => key.push(c),
+                }
+            }
+            out.insert(key);
+        }
+    }
+    out
+}
+
+/// name of the function whose body contains `line` of a repository source file: the nearest preceding
+/// `fn <name>` (the same rule as checks/c08.py); keys carry it instead of the line number, which moves with edits
+fn enclosing_fn(file: &str, line: usize) -> String {
+    thread_local! {
+        static CACHE: std::cell::RefCell<std::collections::BTreeMap<String, Vec<String>>> = const { std::cell::RefCell::new(std::collections::BTreeMap::new()) };
+    }
+    let repo = std::env::var("VERIF_REPO").unwrap_or_else(|_| "/repo".into());
+    CACHE.with(|c| {
+        let mut c = c.borrow_mut();
+        let lines = c.entry(file.to_string()).or_insert_with(|| {
+            std::fs::read_to_string(std::path::Path::new(&repo).join(file)).unwrap_or_default().lines().map(|l| l.to_string()).collect()
+        });
+        for l in lines[..line.min(lines.len())].iter().rev() {
+            let b = l.as_bytes();
+            let mut i = 0;
+            while i + 3 <= b.len() {
+                if &b[i..i + 2] == b"fn" && (i == 0 || !(b[i - 1].is_ascii_alphanumeric() || b[i - 1] == b'_')) && b[i + 2].is_ascii_whitespace() {
+                    let mut j = i + 2;
+                    while j < b.len() && b[j].is_ascii_whitespace() {
+                        j += 1;
+                    }
+                    let st = j;
+                    while j < b.len() && (b[j].is_ascii_alphanumeric() || b[j] == b'_') {
+                        j += 1;
+                    }
+                    if j > st {
+                        return l[st..j].to_string();
+                    }
+                }
+                i += 1;
+            }
+        }
+        "?".to_string()
+    })
+}
+
+/// the stable part of a panic message: first line, digit runs -> N, cut before the first `:` `(` `[` `{`
+/// (what follows is usually a Debug rendering of input-dependent values); assertion messages keep their head
+fn normalise_message(msg: &str) -> String {
+    let first = msg.split("\\n").next().unwrap_or("").trim().trim_end_matches('\\').trim();
+    let mut m = String::new();
+    let mut in_digits = false;
+    for c in first.chars() {
+        if c.is_ascii_digit() {
+            if !in_digits {
+                m.push('N');
+            }
+            in_digits = true;
+        } else {
+            in_digits = false;
+            m.push(c);
+        }
+    }
+    let cut = if m.starts_with("assertion") {
+        m.find(" failed").map(|i| i + 7).unwrap_or(m.len())
+    } else if m.starts_with("called `") {
+        m.find(" value").map(|i| i + 6).unwrap_or(m.len())
+    } else {
+        m.find([':', '(', '[', '{']).unwrap_or(m.len())
+    };
+    let head = m[..cut].trim();
+    if head.chars().count() < 4 { "<dynamic message>".to_string() } else { head.chars().take(80).collect() }
+}
+
+/// what identifies a failure (mirrors checks/c08.py finding_key, without the stage of crashes)
+fn base_key(oracle: &str) -> String {
+    let d = oracle.strip_prefix("FAIL:").unwrap_or(oracle);
+    if let Some(p) = d.strip_prefix("panic ") {
+        // panic <file>:<line>: <msg>  ->  panic <file> fn <enclosing fn>: <normalised msg>
+        let mut it = p.splitn(3, ':');
+        let (file, line, msg) = (it.next().unwrap_or(""), it.next().unwrap_or(""), it.next().unwrap_or(""));
+        let repo = std::env::var("VERIF_REPO").unwrap_or_else(|_| "/repo".into());
+        let file = file.strip_prefix(&format!("{}/", repo.trim_end_matches('/'))).unwrap_or(file);
+        let f = enclosing_fn(file, line.trim().parse().unwrap_or(0));
+        return format!("panic {} fn {}: {}", file, f, normalise_message(msg));
+    }
+    if d.starts_with("slow") {
+        return "slow".into();
+    }
+    if d.starts_with("timeout") {
+        return "timeout".into();
+    }
+    d.split(" class=").next().unwrap_or(d).split(" stage=").next().unwrap_or(d).to_string()
+}
+
+/// readable class of a minimised input: digit runs -> N, runs of >= 3 equal characters -> `c+`, blanks squeezed
+pub fn input_class(bytes: &[u8]) -> String {
+    let text = String::from_utf8_lossy(bytes);
+    let mut s = String::new();
+    let cs: Vec<char> = text.chars().collect();
+    let mut i = 0;
+    while i < cs.len() {
+        let c = cs[i];
+        if c.is_ascii_digit() {
+            while i < cs.len() && cs[i].is_ascii_digit() {
+                i += 1;
+            }
+            s.push('N');
+            continue;
+        }
+        if c.is_whitespace() {
+            while i < cs.len() && cs[i].is_whitespace() {
+                i += 1;
+            }
+            s.push(' ');
+            continue;
+        }
+        let mut j = i;
+        while j < cs.len() && cs[j] == c {
+            j += 1;
+        }
+        if j - i >= 3 {
+            s.push(c);
+            s.push('+');
+        } else {
+            for _ in i..j {
+                s.push(c);
+            }
+        }
+        i = j;
+    }
+    // squeeze repeated two-character groups such as `(-(-(-` too
+    let s = squeeze_pairs(&s);
+    let t: String = s.trim().chars().filter(|c| *c != '\t').take(60).collect();
+    if s.trim().chars().count() > 60 { format!("{}..#{:08x}", t, fnv64(s.as_bytes()) as u32) } else { t }
+}
+
+fn squeeze_pairs(s: &str) -> String {
+    let cs: Vec<char> = s.chars().collect();
+    for w in [2usize, 3, 4, 5, 6, 7, 8] {
+        let mut out: Vec<char> = Vec::new();
+        let mut i = 0;
+        let mut changed = false;
+        while i < cs.len() {
+            if i + 3 * w <= cs.len() && cs[i..i + w] == cs[i + w..i + 2 * w] && cs[i..i + w] == cs[i + 2 * w..i + 3 * w] {
+                let unit: Vec<char> = cs[i..i + w].to_vec();
+                let mut j = i;
+                while j + w <= cs.len() && cs[j..j + w] == unit[..] {
+                    j += w;
+                }
+                out.push('{');
+                out.extend(&unit);
+                out.push('}');
+                out.push('+');
+                i = j;
+                changed = true;
+            } else {
+                out.push(cs[i]);
+                i += 1;
+            }
+        }
+        if changed {
+            return out.into_iter().collect();
+        }
+    }
+    s.to_string()
+}
+
+/// Greedy delta debugging over lines, then over byte chunks; every candidate runs in a worker process
+fn shrink(req: &Req, key: &str, budget_runs: usize, jobs: usize) -> (Req, Res, usize) {
+    let m = materialise(&req.input).unwrap();
+    let mut best = m.bytes.clone();
+    let mut runs = 0usize;
+    let mk = |bytes: &[u8]| {
+        let mut r = req.clone();
+        r.input = literal_spec(&m, bytes);
+        r
+    };
+    // the literal form itself must fail the same way
+    let first = supervise_seq(&[mk(&best).line()]).into_iter().next().unwrap();
+    let short = key == "timeout";
+    if short {
+        CURRENT_WATCHDOG_MS.store(SHRINK_WATCHDOG_MS, std::sync::atomic::Ordering::SeqCst);
+    }
+    runs += 1;
+    if base_key(&first.oracle) != key {
+        CURRENT_WATCHDOG_MS.store(WATCHDOG_MS, std::sync::atomic::Ordering::SeqCst);
+        return (req.clone(), first, runs);
+    }
+    let first_copy = Res { obs: first.obs.clone(), oracle: first.oracle.clone(), micros: first.micros, nbytes: first.nbytes };
+    let mut best_res = first;
+    for by_lines in [true, false] {
+        let mut chunk = usize::MAX;
+        loop {
+            let units: Vec<(usize, usize)> = if by_lines {
+                let mut v = Vec::new();
+                let mut s = 0;
+                for (i, b) in best.iter().enumerate() {
+                    if *b == b'\n' {
+                        v.push((s, i + 1));
+                        s = i + 1;
+                    }
+                }
+                if s < best.len() {
+                    v.push((s, best.len()));
+                }
+                v
+            } else {
+                (0..best.len()).map(|i| (i, i + 1)).collect()
+            };
+            if units.len() <= 1 && by_lines {
+                break;
+            }
+            if chunk == usize::MAX {
+                chunk = (units.len() / 2).max(1);
+            }
+            chunk = chunk.min(units.len().max(1));
+            // candidates: remove units[k*chunk .. (k+1)*chunk]
+            let mut cands: Vec<Vec<u8>> = Vec::new();
+            let mut k = 0;
+            while k < units.len() {
+                let a = units[k].0;
+                let b = units[(k + chunk).min(units.len()) - 1].1;
+                let mut c = best[..a].to_vec();
+                c.extend_from_slice(&best[b..]);
+                if c.len() < best.len() {
+                    cands.push(c);
+                }
+                k += chunk;
+            }
+            let mut improved = false;
+            for batch in cands.chunks(jobs.max(1) * 4) {
+                if runs >= budget_runs {
+                    break;
+                }
+                let lines: Vec<String> = batch.iter().map(|c| mk(c).line()).collect();
+                let rs = supervise(&lines, jobs);
+                runs += lines.len();
+                if let Some((i, r)) = rs.into_iter().enumerate().find(|(_, r)| base_key(&r.oracle) == key) {
+                    best = batch[i].clone();
+                    best_res = r;
+                    improved = true;
+                    break;
+                }
+            }
+            if runs >= budget_runs {
+                break;
+            }
+            if !improved {
+                if chunk == 1 {
+                    break;
+                }
+                chunk = (chunk / 2).max(1);
+            }
+        }
+        if runs >= budget_runs {
+            break;
+        }
+    }
+    if short {
+        CURRENT_WATCHDOG_MS.store(WATCHDOG_MS, std::sync::atomic::Ordering::SeqCst);
+        let confirm = supervise_seq(&[mk(&best).line()]).into_iter().next().unwrap();
+        runs += 1;
+        if base_key(&confirm.oracle) == key {
+            best_res = confirm;
+        } else {
+            return (req.clone(), first_copy, runs);
+        }
+    }
+    (mk(&best), best_res, runs)
+}
+
+// ------------------------------------------------------------------------------------------ small model-diff ops
+
+/// C08.lex: the real TokenStream on a byte string; the request carries the raw token lengths so that the
+/// model replays only the stream bookkeeping (offsets, synthetic final endline, end_of_stream)
+fn lex_case(bytes: &[u8], out: &mut Out, hist: &mut Hist) {
+    let Ok(text) = String::from_utf8(bytes.to_vec()) else { return };
+    let r = guard(|| rssl_preprocess::verif::lex(&text, rssl::text::SourceLocation::first(), true));
+    let (script, obs, oracle) = match r {
+        Err(p) => (String::new(), format!("panic:{}", p), format!("FAIL:panic {}", p)),
+        Ok(Err(e)) => {
+            hist.add("lex=error");
+            (String::from("!"), format!("err:{:?}", e.reason), "ok".to_string())
+        }
+        Ok(Ok(tokens)) => {
+            hist.add("lex=ok");
+            let mut script = Vec::new();
+            let mut spans = Vec::new();
+            let mut fail = None;
+            let mut pos = 0u32;
+            let n = tokens.len();
+            for (k, t) in tokens.iter().enumerate() {
+                let (a, b) = {
+                    use rssl::text::{Locate, LocateEnd};
+                    (t.get_location().get_raw(), t.get_end_location().get_raw())
+                };
+                let endl = matches!(t.0, rssl::text::tokens::Token::Endline);
+                spans.push(format!("{}-{}{}", a, b, if endl { "e" } else { "" }));
+                if a != pos && fail.is_none() {
+                    fail = Some(format!("token {} starts at {} but the previous one ended at {}", k, a, pos));
+                }
+                if b == a {
+                    // only the final synthetic endline may be empty
+                    if !(k + 1 == n && endl && a as usize == text.len()) && fail.is_none() {
+                        fail = Some(format!("token {} consumed nothing at offset {}", k, a));
+                    }
+                } else {
+                    script.push(format!("{}{}", b - a, if endl { "e" } else { "" }));
+                }
+                pos = b;
+            }
+            if pos as usize != text.len() && fail.is_none() {
+                fail = Some(format!("tokens end at {} of {}", pos, text.len()));
+            }
+            if n > text.len() + 1 && fail.is_none() {
+                fail = Some(format!("{} tokens for {} bytes", n, text.len()));
+            }
+            (script.join(","), spans.join(" "), fail.map(|f| format!("FAIL:{}", f)).unwrap_or_else(|| "ok".into()))
+        }
+    };
+    out.case(&format!("C08.lex\t{}\t{}", hex(bytes), if script.is_empty() { "-".into() } else { script }), &obs, &oracle);
+}
+
+/// C08.cond: directive letters i/I (#if 1 / #if 0), d/D (#ifdef defined/undefined), l/L (#elif 1/0), e (#else), n (#endif), t (text line)
+fn cond_case(letters: &str, out: &mut Out, hist: &mut Hist) {
+    let mut src = String::from("#define DEF 1\n");
+    for (k, c) in letters.chars().enumerate() {
+        src.push_str(&match c {
+            'i' => "#if 1\n".to_string(),
+            'I' => "#if 0\n".to_string(),
+            'd' => "#ifdef DEF\n".to_string(),
+            'D' => "#ifdef UNDEF\n".to_string(),
+            'l' => "#elif 1\n".to_string(),
+            'L' => "#elif 0\n".to_string(),
+            'e' => "#else\n".to_string(),
+            'n' => "#endif\n".to_string(),
+            _ => format!("t{}\n", k),
+        });
+    }
+    let r = guard(|| {
+        let mut sm = rssl::text::SourceManager::new();
+        let mut inc = MemFiles(vec![("main.rssl".to_string(), src.clone())]);
+        match rssl::preprocess::preprocess("main.rssl", &mut sm, &mut inc, &[]) {
+            Ok(tokens) => {
+                let ids: Vec<String> = tokens
+                    .iter()
+                    .filter_map(|t| match &t.0 {
+                        rssl::text::tokens::Token::Id(id) => id.0.strip_prefix('t').map(|s| s.to_string()),
+                        _ => None,
+                    })
+                    .collect();
+                format!("ok:{}", ids.join(","))
+            }
+            Err(e) => {
+                use rssl::text::CompileErrorExt;
+                let msg = format!("{}", e.display(&sm));
+                let kind = if msg.contains("not enough #endif") {
+                    "not-finished"
+                } else if msg.contains("#else but with no matching") {
+                    "else-not-matched"
+                } else if msg.contains("#endif but with no matching") {
+                    "endif-not-matched"
+                } else {
+                    "other"
+                };
+                format!("err:{}", kind)
+            }
+        }
+    });
+    let (obs, oracle) = match r {
+        Ok(o) => (o, "ok".to_string()),
+        Err(p) => (format!("panic:{}", p), format!("FAIL:panic {}", p)),
+    };
+    hist.add(&format!("cond={}", obs.split(':').next().unwrap_or("")));
+    out.case(&format!("C08.cond\t{}", letters), &obs, &oracle);
+}
+
+// ------------------------------------------------------------------------------------------ driver
+
+fn emit(out: &mut Out, line: &str, r: &Res) {
+    out.case(line, &r.obs, &r.oracle);
+}
+
+pub fn run(args: &Args, out: &mut Out) {
+    let mut hist = Hist::default();
+    let jobs: usize = std::env::var("VERIF_JOBS").ok().and_then(|s| s.parse().ok()).unwrap_or(4);
+    if let Some(lines) = args.request_lines() {
+        if args.extra.iter().any(|e| e == "worker") {
+            let start = args.extra.iter().find_map(|e| e.strip_prefix("start=").and_then(|s| s.parse().ok())).unwrap_or(0);
+            worker(lines, start, args.extra.iter().any(|e| e == "staged"));
+            return;
+        }
+        // replay / corpus mode
+        let compile_lines: Vec<String> = lines.iter().filter(|l| l.starts_with("C08.compile\t")).cloned().collect();
+        let rs = supervise(&compile_lines, jobs);
+        let mut k = 0;
+        for line in &lines {
+            if line.starts_with("C08.compile\t") {
+                let r = &rs[k];
+                k += 1;
+                let mut oracle = r.oracle.clone();
+                if oracle.starts_with("FAIL:died") || oracle.starts_with("FAIL:timeout") {
+                    oracle = format!("{} stage={}", oracle, diagnose(line));
+                } else if oracle.starts_with("FAIL:slow") {
+                    oracle = format!("{} stage={}", oracle, diagnose2(line).1);
+                }
+                if oracle.starts_with("FAIL:died") || oracle.starts_with("FAIL:timeout") || oracle.starts_with("FAIL:slow") {
+                    if let Some(m) = Req::parse(line).and_then(|q| materialise(&q.input)) {
+                        oracle = format!("{} class={}", oracle, input_class(&m.bytes));
+                    }
+                }
+                hist.add(&format!("outcome={}", r.obs.split(':').next().unwrap_or("")));
+                if args.extra.iter().any(|e| e == "showtime") {
+                    out.case(line, &format!("{} [{} us, {} bytes]", r.obs, r.micros, r.nbytes), &oracle);
+                    continue;
+                }
+                out.case(line, &r.obs, &oracle);
+            } else if let Some(rest) = line.strip_prefix("C08.lex\t") {
+                if let Some(b) = rest.split('\t').next().and_then(unhex) {
+                    lex_case(&b, out, &mut hist);
+                }
+            } else if let Some(rest) = line.strip_prefix("C08.cond\t") {
+                cond_case(rest, out, &mut hist);
+            }
+        }
+        out.stat(&format!("{{\"mode\":\"replay\",\"hist\":{}}}", hist.json()));
+        return;
+    }
+
+    if let Some(spec) = args.extra.iter().find_map(|e| e.strip_prefix("dump=")) {
+        if let Some(m) = materialise(spec) {
+            std::io::stdout().write_all(&m.bytes).unwrap();
+        }
+        return;
+    }
+    let repo = std::env::var("VERIF_REPO").unwrap_or_else(|_| "/repo".into());
+    let mut rng = Rng::new(args.seed);
+    let scale = args.n.unwrap_or(if args.thorough() { 12 } else { 1 });
+
+    // ---- model-diff side streams
+    for _ in 0..(300 * scale.min(10)) {
+        let b = gen_lex_soup(&mut rng);
+        lex_case(&b, out, &mut hist);
+    }
+    for letters in cond_sequences(&mut rng, if args.thorough() { 7 } else { 5 }, 300 * scale.min(10) as usize) {
+        cond_case(&letters, out, &mut hist);
+    }
+
+    // ---- the property's own oracle: compile under supervision
+    let reqs = plan(&mut rng, scale, args.thorough(), &repo, &mut hist);
+    let lines: Vec<String> = reqs.iter().map(|r| r.line()).collect();
+    let t0 = Instant::now();
+    // phase 1: every input once (its first configuration); phase 2: the other configurations of the inputs that
+    // did not kill or hang the worker (a front-end crash would repeat identically on every target)
+    let first: Vec<usize> = (0..reqs.len()).filter(|&i| i == 0 || reqs[i].input != reqs[i - 1].input).collect();
+    let l1: Vec<String> = first.iter().map(|&i| lines[i].clone()).collect();
+    let r1 = supervise(&l1, jobs);
+    let mut rs: Vec<Option<Res>> = (0..reqs.len()).map(|_| None).collect();
+    let mut crashed: std::collections::BTreeSet<String> = std::collections::BTreeSet::new();
+    for (&i, r) in first.iter().zip(r1) {
+        if r.oracle.starts_with("FAIL:died") || r.oracle.starts_with("FAIL:timeout") {
+            crashed.insert(reqs[i].input.clone());
+        }
+        rs[i] = Some(r);
+    }
+    let rest: Vec<usize> = (0..reqs.len()).filter(|&i| rs[i].is_none() && !crashed.contains(&reqs[i].input)).collect();
+    let l2: Vec<String> = rest.iter().map(|&i| lines[i].clone()).collect();
+    for (&i, r) in rest.iter().zip(supervise(&l2, jobs)) {
+        rs[i] = Some(r);
+    }
+    // an exceeded time budget is confirmed by a second, solitary run (the machine is shared)
+    let slow_idx: Vec<usize> = (0..reqs.len()).filter(|&i| rs[i].as_ref().is_some_and(|r| r.oracle.starts_with("FAIL:slow"))).collect();
+    let mut slow_unconfirmed = 0u64;
+    for i in slow_idx {
+        if let Some(again) = supervise_seq(&[lines[i].clone()]).into_iter().next() {
+            if !again.oracle.starts_with("FAIL:slow") {
+                slow_unconfirmed += 1;
+                rs[i] = Some(again);
+            }
+        }
+    }
+    let mut skipped_after_crash = 0u64;
+    let rs: Vec<Res> = rs
+        .into_iter()
+        .map(|r| {
+            r.unwrap_or_else(|| {
+                skipped_after_crash += 1;
+                Res { obs: "not-run".into(), oracle: "SKIP:the same input already killed or hung a worker on another configuration".into(), micros: 0, nbytes: 0 }
+            })
+        })
+        .collect();
+    let wall = t0.elapsed().as_secs_f64();
+
+    // distributions and timing
+    let mut worst_ratio = 0.0f64; // ns per byte^2, inputs >= 512 bytes
+    let mut worst_ms = 0u64;
+    let mut total_bytes = 0usize;
+    let mut size_hist = [0u64; 6];
+    for (q, r) in reqs.iter().zip(&rs) {
+        let kind = q.input.split(':').next().unwrap_or("?").to_string();
+        let outcome = r.obs.split(':').next().unwrap_or("?").to_string();
+        hist.add(&format!("kind={}", kind));
+        hist.add(&format!("outcome={}", outcome));
+        hist.add(&format!("{}/{}", kind, outcome));
+        hist.add(&format!("target={}", q.tgt.name()));
+        hist.add(&format!("mode={}", match q.mode { Mode::All => "all", Mode::Named(_) => "named", Mode::NoPipeline => "nopipeline" }));
+        hist.add(&format!("layout={}", q.layout as u8));
+        if outcome == "err" {
+            let msg = r.obs.splitn(2, ": ").last().unwrap_or("");
+            let word: String = msg.split(|c: char| !c.is_alphanumeric() && c != ' ').next().unwrap_or("").chars().take(28).collect();
+            hist.add(&format!("err/{}", word.trim()));
+        }
+        total_bytes += r.nbytes;
+        size_hist[match r.nbytes { 0..=63 => 0, 64..=255 => 1, 256..=1023 => 2, 1024..=4095 => 3, 4096..=16383 => 4, _ => 5 }] += 1;
+        worst_ms = worst_ms.max(r.micros / 1000);
+        if r.nbytes >= 512 {
+            worst_ratio = worst_ratio.max(r.micros as f64 * 1000.0 / (r.nbytes as f64 * r.nbytes as f64));
+        }
+    }
+
+    // crashes and hangs: find the stage (part of the finding key), minimise the first input of every key
+    let mut shrunk: Vec<(String, Res)> = Vec::new();
+    let mut done: std::collections::BTreeSet<String> = std::collections::BTreeSet::new();
+    let mut oracles: Vec<String> = rs.iter().map(|r| r.oracle.clone()).collect();
+    let mut shrink_runs = 0usize;
+    let known = known_keys();
+    let mut stage_cache: std::collections::BTreeMap<(String, bool), String> = std::collections::BTreeMap::new();
+    for (i, r) in rs.iter().enumerate() {
+        if !r.oracle.starts_with("FAIL") {
+            continue;
+        }
+        let mut key = base_key(&r.oracle);
+        let slow = key.starts_with("slow");
+        let crash = key.starts_with("died") || key.starts_with("timeout") || slow;
+        if crash {
+            let ck = (reqs[i].input.clone(), reqs[i].tgt == Tgt::Msl);
+            let stage = stage_cache.entry(ck).or_insert_with(|| if slow { diagnose2(&lines[i]).1 } else { diagnose(&lines[i]) }).clone();
+            oracles[i] = format!("{} stage={}", r.oracle, stage);
+            key = format!("{} stage={}", key, stage);
+        }
+        if done.contains(&key) || (known.contains(&key) && std::env::var("VERIF_SHRINK_KNOWN").is_err()) {
+            continue;
+        }
+        done.insert(key.clone());
+        let budget = if key.starts_with("timeout") { 24 } else if crash { 80 } else { 200 };
+        let (small, mut res, runs) = shrink(&reqs[i], &base_key(&r.oracle), budget, jobs);
+        shrink_runs += runs;
+        if crash {
+            let cls = materialise(&small.input).map(|m| input_class(&m.bytes)).unwrap_or_default();
+            let stage = format!(" stage={}", if slow { diagnose2(&small.line()).1 } else { diagnose(&small.line()) });
+            res.oracle = format!("{}{} class={}", res.oracle, stage, cls);
+        }
+        shrunk.push((small.line(), res));
+    }
+    // minimised failures first (the check reports the first request of every finding key)
+    for (line, r) in &shrunk {
+        emit(out, line, r);
+    }
+    for ((line, r), oracle) in lines.iter().zip(&rs).zip(&oracles) {
+        out.case(line, &r.obs, oracle);
+    }
+    out.stat(&format!(
+        "{{\"compile_requests\":{},\"skipped_after_crash\":{},\"slow_not_confirmed\":{},\"jobs\":{},\"wall_s\":{:.1},\"bytes_total\":{},\"size_buckets_lt64_256_1k_4k_16k_more\":{:?},\
+         \"worst_ms\":{},\"worst_ns_per_byte2_over_512B\":{:.2},\"budget\":\"{} ms + n^2 * {} ns, watchdog {} ms, stack {} MB\",\
+         \"shrink_runs\":{},\"minimised_failures\":{},\"hist\":{}}}",
+        lines.len(), skipped_after_crash, slow_unconfirmed, jobs, wall, total_bytes, size_hist, worst_ms, worst_ratio, BUDGET_BASE_MS, BUDGET_NS_PER_BYTE2, WATCHDOG_MS,
+        STACK_BYTES >> 20, shrink_runs, shrunk.len(), hist.json()
+    ));
 }
